@@ -132,6 +132,15 @@ func (c12) Case(c *core.Ctx) {
 		pairs = append(pairs, p)
 		specs = append(specs, p.spec)
 	}
+	if r.Intn(6) == 0 {
+		// a top-level entry whose KEY is the text of one of the pairs ("old:new"): no pair addresses it
+		sp := pairs[r.Intn(len(pairs))].spec
+		if strings.Contains(sp, ":") && !strings.ContainsAny(sp, "*[") {
+			root[sp] = jv.M{"bystander": "named like a pair"}
+			before, orig = jv.Fp(root), jv.Copy(root)
+			c.Count("bystander-key-named-like-a-pair")
+		}
+	}
 	for i := range pairs {
 		for j := range pairs {
 			if i == j {
@@ -247,7 +256,7 @@ func (c12) Case(c *core.Ctx) {
 		return
 	}
 	if r.Intn(5) == 0 {
-		if jb, e := json.Marshal(root); e == nil {
+		if jb, e := json.Marshal(root); e == nil && jsonSafeKeys(root) {
 			out, e2 := j2x.JsonNewJson(jb, specs...)
 			var dec interface{}
 			if e2 == nil {
